@@ -593,10 +593,18 @@ func TestVerifC14Cancel(t *testing.T) {
 				w.nd.ps.eval <- func() { close(held); <-release }
 				<-held
 				B := c.Range(4, 16)
+				// (a third of these cases: nothing but calls that hand a request over and then wait for the loop's answer)
+				storm := c.Chance(0.33)
+				if storm {
+					B = 16
+				}
 				for i := 0; i < B; i++ {
 					op := c14Ops[c.Intn(len(c14Ops))]
-					if c.Chance(0.6) {
-						op = []string{"relaycancel", "relaycancel", "cancelsub", "evhcancel", "topicclose", "unregval", "relay", "subscribe", "join"}[c.Intn(9)]
+					if storm {
+						op = []string{"listpeers", "listpeers", "tlistpeers", "gettopics"}[c.Intn(4)]
+					} else if c.Chance(0.6) {
+						op = []string{"relaycancel", "relaycancel", "cancelsub", "evhcancel", "topicclose", "unregval", "relay", "subscribe", "join",
+							"listpeers", "listpeers", "tlistpeers", "gettopics", "blacklist"}[c.Intn(14)]
 					}
 					seed := c.R.Uint64()
 					wk := &c14Worker{id: 100 + i, done: make(chan struct{})}
@@ -617,8 +625,35 @@ func TestVerifC14Cancel(t *testing.T) {
 				for i := 0; i < 300*B; i++ {
 					runtime.Gosched()
 				}
-				w.cancel("loop_busy")
-				close(release)
+				if !storm && c.Chance(0.5) {
+					w.cancel("loop_busy")
+					close(release)
+				} else {
+					// the loop starts serving the queued requests and the cancellation lands among them: some calls have
+					// handed their request over and wait for the answer at that moment
+					// (every processor is kept busy meanwhile, so that a caller whose request the loop has just taken does not get
+					// to run at once: more calls sit between hand-over and answer when the cancellation lands)
+					var stopSpin atomic.Bool
+					var spin sync.WaitGroup
+					if storm {
+						for i, k := 0, 2*runtime.GOMAXPROCS(0); i < k; i++ {
+							spin.Add(1)
+							go func() {
+								defer spin.Done()
+								for !stopSpin.Load() {
+									runtime.Gosched()
+								}
+							}()
+						}
+					}
+					close(release)
+					for i, k := 0, c.Intn(40); i < k; i++ {
+						runtime.Gosched()
+					}
+					w.cancel("loop_busy_released_first")
+					stopSpin.Store(true)
+					spin.Wait()
+				}
 			}
 			if mode == "at_time" {
 				if alignHB && w.nd.gs != nil {
@@ -876,6 +911,199 @@ func TestVerifC14Ctor(t *testing.T) {
 			c.Count("constructors", 1)
 			if failed {
 				c.Count("failed_constructors", 1)
+			}
+		})
+	})
+}
+
+// C14.handoff — calls that hand a request to the event loop and then wait for its answer, racing with the
+// cancellation of the node's context. The loop is held in a thunk while 4..24 callers queue up; then either the
+// context is cancelled first and the loop released, or the loop is released and the cancellation lands while it
+// is serving the queue (with every processor kept busy in most cases, so that callers whose request has just been
+// taken do not run at once). Whichever side leaves first, the other must not wait for it: every call returns and
+// the event loop and its helpers exit once the host is closed.
+func TestVerifC14Handoff(t *testing.T) {
+	ops := []string{"listpeers", "listpeers", "tlistpeers", "gettopics", "blacklist", "regval", "unregval", "relay", "evh", "subscribe", "join", "publish", "direct",
+		"relaycancel", "relaycancel", "cancelsub", "evhcancel", "topicclose"}
+	vRun(t, "C14.handoff", vCount(1000, 20000), func(c *vCase) {
+		c.Bubble(func() {
+			n := newVNet(c)
+			h := n.NewHost("node", "")
+			ctx, cancel := context.WithCancel(context.Background())
+			router := []string{"gossipsub", "floodsub", "randomsub"}[c.Intn(3)]
+			var ps *PubSub
+			var err error
+			switch router {
+			case "gossipsub":
+				ps, err = NewGossipSub(ctx, h)
+			case "floodsub":
+				ps, err = NewFloodSub(ctx, h)
+			case "randomsub":
+				ps, err = NewRandomSub(ctx, h, 10)
+			}
+			if err != nil {
+				panic(err)
+			}
+			tp, err := ps.Join("t")
+			if err != nil {
+				panic(err)
+			}
+			if _, err := tp.Subscribe(); err != nil {
+				panic(err)
+			}
+			ps.RegisterTopicValidator("v", func(context.Context, peer.ID, *Message) ValidationResult { return ValidationAccept })
+			// things to tear down while the loop is busy
+			var relays []RelayCancelFunc
+			var subs []*Subscription
+			var evhs []*TopicEventHandler
+			for i := 0; i < 4; i++ {
+				if rc, err := tp.Relay(); err == nil {
+					relays = append(relays, rc)
+				}
+				if s, err := tp.Subscribe(); err == nil {
+					subs = append(subs, s)
+				}
+				if e, err := tp.EventHandler(); err == nil {
+					evhs = append(evhs, e)
+				}
+			}
+			tz, err := ps.Join("z")
+			if err != nil {
+				panic(err)
+			}
+			vSettle(10 * time.Millisecond)
+			release, held := make(chan struct{}), make(chan struct{})
+			ps.eval <- func() { close(held); <-release }
+			<-held
+			type caller struct {
+				op   string
+				done chan struct{}
+			}
+			B := c.Range(4, 24)
+			queries := c.Chance(0.4)
+			var callers []*caller
+			mix := map[string]int{}
+			for i := 0; i < B; i++ {
+				op := ops[c.Intn(len(ops))]
+				if queries {
+					op = ops[c.Intn(4)]
+				}
+				mix[op]++
+				cl := &caller{op: op, done: make(chan struct{})}
+				callers = append(callers, cl)
+				k := i
+				go func() {
+					defer close(cl.done)
+					switch cl.op {
+					case "listpeers":
+						ps.ListPeers("t")
+					case "tlistpeers":
+						tp.ListPeers()
+					case "gettopics":
+						ps.GetTopics()
+					case "blacklist":
+						ps.BlacklistPeer(peer.ID(fmt.Sprintf("somebody-%d", k)))
+					case "regval":
+						ps.RegisterTopicValidator(fmt.Sprintf("w%d", k), func(context.Context, peer.ID, *Message) ValidationResult { return ValidationAccept })
+					case "unregval":
+						ps.UnregisterTopicValidator("v")
+					case "relay":
+						tp.Relay()
+					case "evh":
+						tp.EventHandler()
+					case "subscribe":
+						tp.Subscribe()
+					case "join":
+						ps.Join(fmt.Sprintf("j%d", k))
+					case "publish":
+						tp.Publish(context.Background(), []byte(fmt.Sprintf("m%d", k)))
+					case "direct":
+						ps.AddDirectPeer(peer.AddrInfo{ID: peer.ID(fmt.Sprintf("direct-%d", k))})
+					case "relaycancel":
+						relays[k%len(relays)]()
+					case "cancelsub":
+						subs[k%len(subs)].Cancel()
+					case "evhcancel":
+						evhs[k%len(evhs)].Cancel()
+					case "topicclose":
+						tz.Close()
+					}
+				}()
+			}
+			for i := 0; i < 200*B; i++ {
+				runtime.Gosched()
+			}
+			order := "cancel_then_release"
+			if c.Chance(0.25) {
+				cancel()
+				close(release)
+			} else {
+				order = "release_then_cancel"
+				var stopSpin atomic.Bool
+				var spin sync.WaitGroup
+				if c.Chance(0.7) {
+					order = "release_then_cancel_busy_processors"
+					for i, k := 0, 2*runtime.GOMAXPROCS(0); i < k; i++ {
+						spin.Add(1)
+						go func() {
+							defer spin.Done()
+							for !stopSpin.Load() {
+								runtime.Gosched()
+							}
+						}()
+					}
+				}
+				close(release)
+				for i, k := 0, c.Intn(60); i < k; i++ {
+					runtime.Gosched()
+				}
+				cancel()
+				stopSpin.Store(true)
+				spin.Wait()
+			}
+			time.Sleep(5 * time.Second)
+			synctest.Wait()
+			for _, cl := range callers {
+				select {
+				case <-cl.done:
+				default:
+					c.leftover = true
+					c.Violatef(map[string]string{"check": "api_call_blocked", "op": cl.op, "phase": "in_progress_at_cancel"},
+						"router=%s order=%s callers=%v: %s has not returned 5 virtual seconds after the context was cancelled\n%s", router, order, mix, cl.op, c14StackOf(cl.op))
+					return
+				}
+			}
+			n.Close()
+			vSettle(0)
+			time.Sleep(5 * time.Second)
+			synctest.Wait()
+			gs := vGoroutinesInBubble()
+			for i := 0; i < 4 && len(gs) > 0; i++ {
+				time.Sleep(2 * time.Second)
+				synctest.Wait()
+				gs = vGoroutinesInBubble()
+			}
+			if len(gs) > 0 {
+				c.leftover = true
+				fn := "unknown"
+				lines := strings.Split(gs[0], "\n")
+				if len(lines) > 1 {
+					fn = lines[1]
+					if j := strings.LastIndex(fn, "("); j > 0 {
+						fn = fn[:j]
+					}
+				}
+				c.Violatef(map[string]string{"kind": "goroutine_leak", "where": fn},
+					"router=%s order=%s callers=%v: %d goroutine(s) survive the context and the host:\n%s", router, order, mix, len(gs), strings.Join(gs[:min(3, len(gs))], "\n\n"))
+				return
+			}
+			c.Sig(router, order, queries, B/6)
+			c.State(router, order, queries, B/6)
+			c.Nontrivial(true)
+			c.Count("calls_in_flight_at_cancel", B)
+			c.Count("order:"+order, 1)
+			if c.Idx < 2 {
+				c.Sample(map[string]any{"router": router, "order": order, "callers": mix})
 			}
 		})
 	})
